@@ -104,7 +104,8 @@ def sp_dirfold(eng, st, W, k):
         excl = eng.heap_get(st, ("self", "excl_paths")).t
         has_src = F(eng, "has_source_file", [SEQS], smt.BOOL)(files)
         res = F(eng, "resolve", [smt.STR], smt.STR)(root)
-        cond = And(has_src, Not(smt.Select(cur, root)), Not(smt.Select(excl, root)))
+        # a directory holding a source file is searched unless its resolved path is excluded (excl_paths are resolved)
+        cond = And(has_src, Not(smt.Select(excl, res)))
         nxt = f(W.t, Add(k.t, IntVal(1)))
         dd.ground_axiom("dirfold.step", Implies(And(Le(IntVal(0), k.t), Lt(k.t, Len(W.t))),
                                                 Eq(nxt, Ite(cond, smt.Store(cur, res, smt.TRUE), cur))))
@@ -179,9 +180,10 @@ def build(reg):
         f"{LS}._add_source_dirs", prop="C18", receiver_cls="LangServer", params={}, fields=fields,
         modifies=["self.source_dirs"],
         ensures=[
-            ("only_default", "implies(card(old(self.source_dirs)) != 1 or self.root_path not in old(self.source_dirs), "
-                             "self.source_dirs == old(self.source_dirs))"),
-            ("recursive_default", "implies(card(old(self.source_dirs)) == 1 and self.root_path in old(self.source_dirs), "
+            # called only when no source directory was configured (structural obligation on serve_initialize): the set then
+            # holds the root alone, or nothing when the root itself is excluded
+            ("root_excluded", "implies(card(old(self.source_dirs)) != 1, self.source_dirs == old(self.source_dirs))"),
+            ("recursive_default", "implies(card(old(self.source_dirs)) == 1, "
                                   f"self.source_dirs == dirfold({W}, len({W})))"),
         ],
         calls={"os.walk": m_walk, "filter": m_filter, "Path(root).resolve": m_resolve,
@@ -237,6 +239,8 @@ def _spec_file_set(root, source_dirs, excl_paths, incl_suffixes, excl_suffixes):
         if os.path.isabs(p):
             q = Path(p)
             return {str(x.resolve()) for x in Path(q.anchor).glob(str(q.relative_to(q.anchor)))}
+        if os.path.normpath(p) == ".":  # the root itself (pathlib does not glob ".")
+            return {str(Path(root).resolve())}
         return {str(x.resolve()) for x in Path(root).resolve().glob(p)}
 
     X = set()
@@ -286,21 +290,36 @@ def native_fs_search():
         dict(excl_suffixes=["_gen.f90"]),
         dict(source_dirs=["src", "src/deep"], incl_suffixes=[".inc"], excl_suffixes=["_gen.f90"], excl_paths=["src/b.F"]),
         dict(incl_suffixes=[".f9"]),
+        dict(source_dirs=["."]),
+        dict(source_dirs=["./", "src"]),
+        dict(source_dirs=["."], excl_paths=["top.f90"]),
     ]
     for cfg in configs:
-        for channel in ("file", "cli"):
+        for channel in ("file", "cli", "file_via_symlink"):
+            if channel == "file_via_symlink" and cfg.get("source_dirs"):
+                continue
             if channel == "cli" and not cfg:
                 continue
             files = dict(tree)
             argv = []
-            if channel == "file":
+            if channel in ("file", "file_via_symlink"):
                 files[".fortlsrc"] = json.dumps(cfg)
             else:
                 for k, v in cfg.items():
                     argv += ["--" + k] + list(v)
             ws = Workspace(files)
+            link = None
             try:
-                srv, out = session(ws, [], argv=argv)
+                if channel == "file_via_symlink":
+                    # the client names the root through a symbolic link (rootPath, not a URI)
+                    from replay.harness import make_server
+                    link = ws.root + "_link"
+                    os.symlink(ws.root, link)
+                    srv, rw = make_server(argv)
+                    srv.nthreads = 1
+                    srv.handle({"jsonrpc": "2.0", "id": 0, "method": "initialize", "params": {"rootPath": link}})
+                else:
+                    srv, out = session(ws, [], argv=argv)
                 got = set(srv.workspace)
                 root = os.path.realpath(ws.root)
                 want = _spec_file_set(root, cfg.get("source_dirs", []), cfg.get("excl_paths", []),
@@ -314,6 +333,8 @@ def native_fs_search():
                     return {"configuration": cfg, "given_by": channel, "missing": rel(want - got),
                             "unexpected": rel(got - want), "tree": sorted(tree)}
             finally:
+                if link and os.path.islink(link):
+                    os.unlink(link)
                 ws.close()
     return None
 
@@ -366,12 +387,14 @@ def extra(repo, reg, tier, seed):
     want = ["self._load_config_file", "self.source_dirs.add", "self._resolve_globs_in_paths", "self._add_source_dirs",
             "self.workspace_init"]
     ok = all(c in lines for c in want) and [lines[c] for c in want] == sorted(lines[c] for c in want)
-    guard = "if not self.source_dirs:\n    self.source_dirs.add(self.root_path)" in "\n".join(
-        ast.unparse(s) for s in si.node.body)
+    body_txt = "\n".join(ast.unparse(s) for s in si.node.body)
+    guard = ("search_root = not self.source_dirs" in body_txt and "if search_root:\n    self.source_dirs.add(self.root_path)" in body_txt
+             and "if search_root:\n    self._add_source_dirs()" in body_txt
+             and body_txt.index("search_root = not self.source_dirs") < body_txt.index("self._resolve_globs_in_paths()"))
     items.append(Item("C18/serve_initialize/ensures.composition", "proved" if ok and guard else "refuted", "structural",
                       0.0, where=si.where(), mode="table", func=si.qualname,
-                      detail="configuration is loaded first; the root becomes a source directory only if none were "
-                             "configured; globs are resolved, the recursive default applied, then files are collected",
+                      detail="configuration is loaded first; the root becomes a source directory, and is searched recursively, only "
+                             "if no source directory was configured (decided before globs are resolved); then files are collected",
                       witness=None if ok and guard else {"call_lines": lines, "root_added_only_when_unconfigured": guard}))
     w = native_fs_search()
     items.append(Item("C18/session/native_file_systems", "refuted" if w else "bounded-ok", "native-run(bounded)", 0.0,
